@@ -3,6 +3,7 @@ From Coq Require Import QArith Qreduction List Bool Arith Lia Lqa.
 From PL.C24 Require Import ModelLFIUpdate.
 Import ListNotations.
 Open Scope Q_scope.
+Global Opaque Qred.
 
 (* ------------------------------------------------------------------ plain sums *)
 Fixpoint psum {A} (f : A -> Q) (l : list A) : Q :=
@@ -29,7 +30,7 @@ Qed.
 Lemma psum_ext : forall A (f g : A -> Q) l, (forall x, In x l -> f x == g x) -> psum f l == psum g l.
 Proof.
   induction l as [|x t IH]; simpl; intros H; [reflexivity|].
-  rewrite (H x), IH; auto. reflexivity. intros; apply H; auto.
+  rewrite (H x) by auto. rewrite IH; [reflexivity|]. intros; apply H; auto.
 Qed.
 
 Lemma psum_in_le : forall A (f : A -> Q) l x, (forall y, In y l -> 0 <= f y) -> In x l -> f x <= psum f l.
@@ -63,7 +64,7 @@ Proof. intros. rewrite qsum_psum. apply psum_in_le; auto. Qed.
 Lemma qprod_nonneg : forall l, (forall x, In x l -> 0 <= x) -> 0 <= qprod l.
 Proof.
   induction l as [|x t IH]; cbn [qprod]; intros H; [lra|].
-  rewrite Qred_correct. apply Qmult_le_0_compat; [apply H; auto|apply IH; intros; apply H; auto].
+  rewrite Qred_correct. apply Qmult_le_0_compat; [apply H; simpl; auto|apply IH; intros; apply H; simpl; auto].
 Qed.
 
 (* ------------------------------------------------------------------ booleans *)
@@ -197,9 +198,9 @@ Proof.
   set (sub := ev_worlds tbl (snd me)) in *.
   assert (Hs : tbl_nonneg sub) by (apply filter_nonneg; auto).
   destruct (Qeq_bool (wsum sub all_pred) 0) eqn:E; [discriminate|].
-  inversion H; subst r; clear H. split; [exact Hm|].
-  unfold r_q; simpl. apply Forall_forall. intros t Ht. apply in_map_iff in Ht.
-  destruct Ht as [i [<- _]]. unfold q_ok; simpl.
+  injection H as <-. split; [exact Hm|].
+  unfold r_q; cbn [fst snd]. apply Forall_forall. intros t Ht. apply in_map_iff in Ht.
+  destruct Ht as [i [<- _]]. unfold q_ok; cbn [fst snd].
   assert (Hpe : 0 < wsum sub all_pred).
   { assert (0 <= wsum sub all_pred) by (apply wsum_nonneg; auto).
     assert (~ wsum sub all_pred == 0) by (intro K; apply Qeq_bool_iff in K; congruence). lra. }
